@@ -29,6 +29,7 @@ THEOREMS = [
     "Nix.C03.reachable_wf",
     "Nix.C03.step_wf",
     "Nix.C03.views_agree_reachable",
+    "Nix.C03.views_agree_link_reachable",
     "Nix.C03.names_unique_reachable",
     "Nix.C03.ids_unique_reachable",
     "Nix.C03.id_fresh",
